@@ -107,7 +107,15 @@ class Ctx:
             t = time.time()
             # keep the harness lock file in step with the repository's
             src_lock = "/repo/Cargo.lock"
-            p = subprocess.run(["cargo", "build", "--profile", "chk", "--offline"], cwd=HARNESS,
+            cmd = ["cargo", "build", "--profile", "chk", "--offline"]
+            alt = os.environ.get("VERIF_REPO")
+            if alt and os.path.abspath(alt) != "/repo":
+                # build against another checkout of the repository (background runs use a snapshot
+                # so that edits to /repo do not leak into them): cargo's `paths` override redirects
+                # the path dependencies on /repo/<crate>
+                crates = [d for d in sorted(os.listdir(alt)) if os.path.exists(os.path.join(alt, d, "Cargo.toml"))]
+                cmd += ["--config", "paths=[%s]" % ",".join('"%s"' % os.path.join(alt, d) for d in crates)]
+            p = subprocess.run(cmd, cwd=HARNESS,
                                stdout=subprocess.PIPE, stderr=subprocess.STDOUT, text=True,
                                env=dict(os.environ, CARGO_NET_OFFLINE="true"))
             if p.returncode != 0:
